@@ -39,6 +39,10 @@ tie (T-acc + T-diff), every run:
       sub-trees (placeholder tops before and after ordinary ones) is compared file by file with each sub-tree translated alone
       (in-process with a fresh pass object, and first-thing in fresh worker processes); every emitted file goes through
       modules_ok and the name -> body map of the whole file set through functional_b, both evaluated in Coq.
+  (h) struct families that differ ONLY in the shape of a list field (scalar, [T]*1, 4, 1x4, 4x1, 1x1, 6, 2x3, 3x2) are port types
+      and type parameters; a module body is compared TOGETHER with the typedefs it (transitively) refers to, and typedef names
+      take part in the name -> body map of emitted file sets.  After all sub-trees of a design were translated one after the
+      other as separate tops into one directory, every recorded translated_filename must still hold the text written for it.
   (e) IEEE 1800-2017 keywords name EVERY declaration shape of a small design (scalar / 1-D / 2-D lists of ports and wires,
       struct-typed signals and lists of them, interfaces, lists of interfaces and interface members, sub-components and lists
       of them, ports and port lists of sub-components, struct fields, struct names, block names, temporaries, free variables,
@@ -116,7 +120,7 @@ def last_name(words_text):
 def parse_sv(text):
   """-> dict(types=[(name,[fields])], mods=[dict(name, body, insts=[(modname, instname)], decls=[(name, category)], loops=[...])])"""
   src = strip_comments(text)
-  types, mods = [], []
+  types, mods, tbody = [], [], {}
   pos = 0
   item = re.compile(r'typedef\s+struct\s+packed\s*\{(?P<f>.*?)\}\s*(?P<tn>[^;]*?)\s*;|^module[ \t]+(?P<mn>[^\n]*?)[ \t]*\n(?:#\((?P<par>[^\n]*)\)[ \t]*\n)?\((?P<ports>.*?)\n\);(?P<body>.*?)\nendmodule[ \t]*$', re.S | re.M)
   for m in item.finditer(src):
@@ -126,6 +130,7 @@ def parse_sv(text):
     if m.group('f') is not None:
       fields = [last_name(d) for d in m.group('f').split(';') if d.strip()]
       types.append((m.group('tn'), fields))
+      tbody.setdefault(m.group('tn'), []).append(' '.join(t[0] for t in tokens(m.group('f'))))
       continue
     decls, insts, loops = [], [], []
     for pd in (m.group('par') or '').split(','):
@@ -220,7 +225,18 @@ def parse_sv(text):
     mods.append({'name': m.group('mn'), 'body': btxt, 'insts': insts, 'decls': decls, 'loops': loops})
   if src[pos:].strip(): raise ParseError(f'unrecognised trailing text {src[pos:].strip()[:80]!r}')
   if not mods: raise ParseError('no module found')
-  return {'types': types, 'mods': mods}
+  # a module body names the struct types it uses; what the module IS includes their definitions: the body text is extended by
+  # the (transitive) typedefs it refers to, so "same module name => same body" also means "same typedef name => same layout"
+  def closure_of(text, seen):
+    out = []
+    for w in dict.fromkeys(re.findall(r'[A-Za-z_][A-Za-z0-9_$]*', text)):
+      if w in tbody and w not in seen:
+        seen.add(w); out.append(f'typedef {w} {{ {tbody[w][0]} }}'); out += closure_of(tbody[w][0], seen)
+    return out
+  for md in mods:
+    cl = closure_of(md['body'], set())
+    if cl: md['body'] += ' ## ' + ' ; '.join(sorted(cl))
+  return {'types': types, 'mods': mods, 'typebody': tbody}
 
 # ====================================================================== Coq terms
 def cstr(x):
@@ -250,7 +266,9 @@ def render_struct(T):
   from pymtl3.datatypes import is_bitstruct_class
   def fld(t):
     if isinstance(t, list):
-      return f'{fld(t[0])}x{len(t)}'
+      dims = []
+      while isinstance(t, list): dims.append(len(t)); t = t[0]
+      return fld(t) + 'x' + 'x'.join(map(str, dims))
     if is_bitstruct_class(t): return render_struct(t)
     return str(t.nbits)
   return T.__name__ + ''.join(f'__{k}_{fld(t)}' for k, t in T.__bitstruct_fields__.items())
@@ -291,6 +309,12 @@ def mk_pkt( n ):
   return Pkt
 def mk_wrap( n ):
   return mk_bitstruct( "Wrap", { 'm': mk_msg( n ), 'c': Bits4 } )
+def mk_tile( *shape ):
+  t = Bits8
+  for n in reversed( shape ): t = [ t ] * n
+  return mk_bitstruct( "Tile", { 'px': t, 'last': Bits1 } )
+# one factory, same class and field names; the types differ ONLY in the shape of the list field
+TL_0, TL_1, TL_4, TL_1x4, TL_4x1, TL_6, TL_2x3, TL_3x2, TL_1x1 = mk_tile(), mk_tile( 1 ), mk_tile( 4 ), mk_tile( 1, 4 ), mk_tile( 4, 1 ), mk_tile( 6 ), mk_tile( 2, 3 ), mk_tile( 3, 2 ), mk_tile( 1, 1 )
 M8, M16, P8, P16, W8, W16 = mk_msg( 8 ), mk_msg( 16 ), mk_pkt( 8 ), mk_pkt( 16 ), mk_wrap( 8 ), mk_wrap( 16 )
 @bitstruct
 class Pt:
@@ -493,7 +517,8 @@ class Leaf( Component ):
     def up():
       s.out @= ~s.in_
 '''
-T_POOL = ['Bits8', 'Bits4', 'mk_bits(13)', 'Pt', 'Outer', 'Bits1', 'M8', 'M16', 'mk_msg(8)', 'mk_msg(16)', 'mk_msg(12)', 'P8', 'P16', 'mk_pkt(8)', 'W8', 'W16', 'mk_wrap(16)']
+T_POOL = ['Bits8', 'Bits4', 'mk_bits(13)', 'Pt', 'Outer', 'Bits1', 'M8', 'M16', 'mk_msg(8)', 'mk_msg(16)', 'mk_msg(12)', 'P8', 'P16', 'mk_pkt(8)', 'W8', 'W16', 'mk_wrap(16)',
+          'TL_0', 'TL_1', 'TL_4', 'TL_1x4', 'TL_4x1', 'TL_6', 'TL_2x3', 'TL_3x2', 'TL_1x1', 'mk_tile( 4, 1 )']
 LT_CLEAN = ['Bits8', 'Bits4', 'Pt', 'Outer', 'mk_bits(13)', 'Bits1']
 LT_DIRTY = ['M8', 'M16', 'mk_msg(8)', 'mk_msg(12)', 'P8', 'P16', 'W8', 'W16']
 TAG_CLEAN = ["'t'", "'u'", "'hello world'", "'a.b'", "'x[0]'", "'<q>'", "'abcdefghijklmnopqrstuvwxyzabcdefghijklmnopqrstuvwxyz0123456789'", "(1, 2)", "[1, 2]", "1.5", "True"]
@@ -605,6 +630,7 @@ class HGen:
       elif form == 2: e = f'Par( {T}, n={n}, tag={r.choice(TAG_CLEAN)} )'; s.features.add('special-char-param')
       else: e = f'Par( {T}, {n}, {r.choice(TAG_CLEAN)}, {r.choice(OPT_CLEAN)} )'; s.features.add('special-char-param')
       if T not in ('Bits8', 'Bits4', 'Bits1', 'mk_bits(13)'): s.features.add('struct-param')
+      if T.startswith('TL_') or T.startswith('mk_tile'): s.features.add('struct-list-shapes')
       if T[0] in 'MPW' or T.startswith('mk_msg') or T.startswith('mk_pkt') or T.startswith('mk_wrap'): s.features.add('same-named-struct-classes')
       return e, 'par'
     if x < 0.68:
@@ -777,6 +803,9 @@ def directed(auxmod):
       [f's.{c}[{j}][{i}].in_ //= s.in_' for c in 'ab' for j in range(2) for i in range(2)])
   add('D_struct_class_params', 'same-named-struct-classes', ['s.a = Par( M8 ); s.b = Par( M16 ); s.c = Par( mk_msg( 8 ) ); s.d = Par( P8 ); s.e = Par( P16 ); s.f = Par( mk_pkt( 8 ) ); '
       's.g = Par( W8 ); s.h = Par( W16 ); s.i = Par( Bits16 ); s.j = Par( Pt ); s.k = Par( M8, 2 ); s.l = Par( M16, opt=M8 ); s.m = Par( M16, opt=M16 ); s.n0 = Par( mk_msg( 4 ) ); s.n1 = Par( mk_msg( 5 ) ); s.n2 = [ Par( M16, 2 ) for i in range(2) ]'])
+  add('D_struct_list_shapes', 'struct-list-shapes', ['s.a = Par( TL_0 ); s.b = Par( TL_1 ); s.c = Par( TL_4 ); s.d = Par( TL_1x4 ); s.e = Par( TL_4x1 ); s.f = Par( TL_6 ); s.g = Par( TL_2x3 ); s.h = Par( TL_3x2 ); s.i = Par( TL_1x1 ); '
+      's.j = Par( mk_tile( 1, 4 ) ); s.k = Par( TL_4x1, 2 ); s.pw = InPort( TL_1x4 ); s.pt = InPort( TL_4x1 ); s.pf = InPort( TL_4 ); s.ow = OutPort( TL_1x4 ); s.ot = OutPort( TL_4x1 ); s.of = OutPort( TL_4 )',
+      's.ow //= s.pw; s.ot //= s.pt; s.of //= s.pf'])
   add('D_list_of_types_distinct_names', 'list-of-types', ['s.a = Multi( [ Bits8, Bits4 ] ); s.b = Multi( [ Bits4, Bits8 ] ); s.c = Multi( ( Bits8, Bits4 ) ); s.d = Multi( [ Pt, Outer ] ); s.e = Multi( [ Outer, Pt ] ); s.f = Multi( [ Bits8, Bits4 ] )'])
   add('D_list_of_types_same_names', 'list-of-struct-types', ['s.a = Multi( [ M8, Bits4 ] ); s.b = Multi( [ M16, Bits4 ] ); s.c = Multi( [ P8, P16 ] ); s.d = Multi( [ P16, P8 ] )'])
   add('D_set_param', 'set-param', ['s.a = Inc2(); s.b = Inc2(); s.c = Inc2( 8 ); s.d = Inc2( amount=1 ); s.e = Inc2( amount=2 ); s.r = [ Inc2( 8 ) for _ in range(3) ]; s.q = [ [ Inc2() for _ in range(2) ] for _ in range(2) ]',
@@ -853,7 +882,7 @@ def translate_multi(top3, paths):
   for fn in {v[1] for v in out.values()}: os.remove(fn)
   return out
 
-def translate_sub(top2, path):
+def translate_sub(top2, path, keep=False):
   """translate ONE instance (given by its repr path 's.a.b[1]') of an elaborated, otherwise identical hierarchy as a translation
   top: the instance keeps exactly the arguments / parameter-tree entries it has in the design.  -> (text, module name)"""
   from pymtl3.passes.backends.verilog import VerilogTranslationPass as V
@@ -862,7 +891,8 @@ def translate_sub(top2, path):
   try:
     top2.apply(V())
     fn = m.get_metadata(V.translated_filename)
-    txt = open(fn).read(); os.remove(fn)
+    txt = open(fn).read()
+    if not keep: os.remove(fn)
     return txt, m.get_metadata(V.translated_top_module), fn
   finally:
     m.set_metadata(V.enable, False)
@@ -1057,6 +1087,7 @@ def run(ctx):
     comps = walk(top)
     used_name = {id(top): topmod}
     alone, sigmemo, top2 = {}, {}, None
+    seq_files = []          # sub-trees translated one after the other as separate tops into ONE directory
     below_misbound = set()
     for (m, parent, iid) in comps[1:]:
       if id(parent) in below_misbound: below_misbound.add(id(m)); continue
@@ -1071,7 +1102,8 @@ def run(ctx):
         try:
           # the SAME instance of an identically built second hierarchy (same arguments, same set_param calls), translated as a top
           if top2 is None: top2 = prepared(build())
-          atxt, amod, afn = translate_sub(top2, repr(m))
+          atxt, amod, afn = translate_sub(top2, repr(m), keep=True)
+          seq_files.append((repr(m), afn, amod, atxt))
           at = parse_sv(atxt)
           am = next((x for x in at['mods'] if x['name'] == amod), None)
           alone[key] = (amod, am['body'] if am else None, atxt, afn)
@@ -1089,6 +1121,20 @@ def run(ctx):
         # this instance is bound to a body that is not its own (reported through sharing_ok): the instantiations read from that body
         # say nothing about ITS children, so they are not judged separately
         below_misbound.add(id(m))
+    # ---- after ALL these translations: every recorded translated_filename must still hold the text written for that top (a later
+    #      translation of a different module must not have replaced it).  Tops whose MODULE NAMES alias are judged by sharing_ok.
+    for pth, fn, amod, atxt in seq_files:
+      aliased = any(a2 == amod and t2 != atxt for _, _, a2, t2 in seq_files)
+      try: now = open(fn).read()
+      except OSError: now = None
+      if now != atxt and not aliased:
+        other = next((p2 for p2, f2, a2, t2 in seq_files if t2 == now), '?')
+        ctx.violation(vkey('C13:output-file-overwritten-by-other-module', feats), f'design {name}: sub-tree {pth} was translated as its own top into {os.path.basename(fn)} (module {amod!r}); after the other sub-trees of the design were '
+                      f'translated one after the other into the same directory, that file holds the text written for {other}: translated_filename no longer defines translated_top_module',
+                      {'design_source': src, 'top': name, 'subtree': pth, 'file': os.path.basename(fn), 'module': amod, 'overwritten_by': other})
+        break
+    for fn in {f for _, f, _, _ in seq_files}:
+      if os.path.exists(fn): os.remove(fn)
     # ---- ONE pass run with several separately enabled sub-trees: each file must equal the sub-tree translated alone, and the
     #      emitted file SET must define every module name with one body (functional_b in Coq) and be well formed file by file
     from pymtl3.passes.backends.verilog import VerilogPlaceholder as _VP
@@ -1106,12 +1152,12 @@ def run(ctx):
         earlier_ = [m for m in direct if not isinstance(m, _VP) and repr(m) < repr(p_)]
         S += [p_] + ([mrng.choice(later)] if later else []) + ([mrng.choice(earlier_)] if earlier_ else [])
         S = list({id(m): m for m in S}.values())
-      # two sub-trees that already alias each other (same alone file, different alone text) are judged by the sharing check of
-      # the whole design; enabling both would only make one overwrite the other
+      # two sub-trees that already alias each other (same alone MODULE NAME, different alone text) are judged by the sharing check
+      # of the whole design; enabling both would only make one overwrite the other
       seenf, S2 = {}, []
       for m in sorted(S, key=repr):
         a_ = alone[sigmemo[id(m)]]
-        if seenf.setdefault(os.path.basename(a_[3]), a_[2]) == a_[2]: S2.append(m)
+        if seenf.setdefault(a_[0], a_[2]) == a_[2]: S2.append(m)
       S = S2
       multi_paths = [repr(m) for m in S]
       try:
@@ -1137,6 +1183,7 @@ def run(ctx):
             ctx.violation('C13:unparsable-output:multi', f'design {name}: file {fn} of a multi-enable run could not be parsed: {e}', {'design_source': src, 'top': name, 'enabled': multi_paths})
         for fn, ft in ftabs:
           for md in ft['mods']: pairs.append((md['name'], intern(md['body'])))
+          for tn_, bl_ in ft['typebody'].items(): pairs += [('typedef ' + tn_, intern(b_)) for b_ in bl_]
           k = len(tab_defs)
           last = fn == ftabs[-1][0] and not below_misbound      # the name -> body map of the whole file set is judged once, with the last file (not when the design already aliases)
           tab_defs.append(f'Definition t{k} : table := {table_term(ft, intern)}.\nDefinition i{k} : list inst := [].\n'
@@ -1339,6 +1386,8 @@ Definition conj (c : nat * (table * list inst)) : bool :=
           others = {id(x[2]) for x in grp}
           if len(others) > 1:
             key_, why = 'C13:same-classname-different-body', 'distinct classes with the same __name__ and parameters'
+          elif len(grp) == 1:
+            key_, why = 'C13:definition-differs-from-instance-alone', 'no other instance uses this module name, yet the emitted definition (module text plus the typedefs it refers to) is not what this instance yields when translated alone: a struct type name aliases another layout, or the text depends on what was translated before'
           elif len({x[6] for x in grp}) == 1:
             key_, why = 'C13:set-param-below-instance-different-body', 'one class, identical own arguments, but construct() arguments of a sub-component were changed with set_param below this instance: the module name does not reflect it'
           elif any(x[7] for x in grp):
